@@ -172,8 +172,13 @@ func (s *Snapshot) History(key []byte, offset uint64, descOrder bool, limit int)
 
 	valRefs = make([]ValueRef, len(timedValues))
 
+	rev := offset + 1
+	if descOrder {
+		rev = hCount - offset
+	}
+
 	for i, timedValue := range timedValues {
-		valRef, err := s.st.valueRefFrom(timedValue.Ts, hCount-uint64(i), timedValue.Value)
+		valRef, err := s.st.valueRefFrom(timedValue.Ts, rev, timedValue.Value)
 		if err != nil {
 			return nil, 0, err
 		}
@@ -183,6 +188,12 @@ func (s *Snapshot) History(key []byte, offset uint64, descOrder bool, limit int)
 		}
 
 		valRefs[i] = valRef
+
+		if descOrder {
+			rev--
+		} else {
+			rev++
+		}
 	}
 
 	return valRefs, hCount, nil
